@@ -38,7 +38,7 @@ TECHNIQUE = ("Coq: simulation lemma over the Gauss-Seidel sweeps (model/spec, ca
              "arithmetic), invariants for the bounds and phi = 0, on top of the C15 cache invariant; verified checker "
              "on the implementation's floats; model/implementation correspondence with logged sweep order")
 LEVEL_TEXT = (
-    "coq/Props/C17.v, all GENERAL (every network, sweep order, iteration count T): C17_formula - the returned value is "
+    "coq/Props/C17.v, all GENERAL (every network, sweep order, iteration count T): C17_formula_partial - the returned value is "
     "1 - average over vertices of the product over the vertex's motifs of H_T, H_T the T-th Gauss-Seidel iterate from "
     "0.5 with explicit update equation; C17_model_is_spec - if every (motif, focal) equation of the network is the "
     "exact expectation (decided by motifs_okb, a polynomial identity check; true for all motifs <= 5 vertices by C15) "
